@@ -690,3 +690,9 @@ add('c15-answer-remembered-without-the-mode', ['C15', 'C09'], 'fire', 'Recipe.ge
     "steps = self.steps[self.stages[timeframe]]",
     "steps = self.used_memo.get(timeframe)\n    if steps is None:\n        steps = self.steps[self.stages[timeframe]]\n        if mode == 'after':\n            steps = list(reversed(steps))\n        self.used_memo[timeframe] = steps",
     'the remembered list depends on the mode, the key does not name it')
+
+# ------------------------------------------------------------------------------------------------ rules added after round 9
+add('c06-noise-clamp-in-base-units', ['C06', 'C14'], 'fire', 'Unit.convert',
+    'return Unit.convert_from(substance, value, quantity_unit, unit)',
+    'if abs(value) < 10 ** (-config.internal_precision):\n        value = 0.0\n    return Unit.convert_from(substance, value, quantity_unit, unit)',
+    'the internal precision counts digits of storage units, the parsed value is in base units')
